@@ -434,6 +434,21 @@ def run(repo: Repo, chk: Check, thorough: bool = False) -> None:
                     norm(t_.left) in shifted and isinstance(none_arm, ast.Constant) and none_arm.value is None and isinstance(val_arm, ast.Subscript) and \
                     norm(val_arm.value) in defv and norm(val_arm.slice) == norm(t_.left):
                 ok = True
+        # the statement form: `if j >= 0: return defaults[j]` ... `return None` - every read of defaults[j] is dominated by j >= 0
+        sub_rets = [x for x in gd.walk() if isinstance(x, ast.Return) and isinstance(x.value, ast.Subscript) and norm(x.value.value) in defv]
+        if not ok and sub_rets:
+            cg_gd = CFG(gd)
+            def _nonneg(r0: ast.Return) -> bool:
+                ix = norm(r0.value.slice)   # type: ignore[union-attr]
+                if ix not in shifted:
+                    return False
+                for t0, pol0 in cg_gd.dominating_tests(r0):
+                    if isinstance(t0, ast.Compare) and len(t0.ops) == 1 and norm(t0.left) == ix and norm(t0.comparators[0]) == '0' and \
+                            ((isinstance(t0.ops[0], ast.GtE) and pol0) or (isinstance(t0.ops[0], ast.Lt) and not pol0)):
+                        return True
+                return False
+            none_ret = any(isinstance(x, ast.Return) and (x.value is None or (isinstance(x.value, ast.Constant) and x.value.value is None)) for x in gd.walk())
+            ok = all(_nonneg(r0) for r0 in sub_rets) and none_ret
         chk.ob('R14.5', f'{MV}._handleFunctionDef.get_default :: shifted index into defaults, None before the offset', ok, txt[:120], gd.loc)
     loops = [n for n in hf.walk() if isinstance(n, ast.For) and 'enumerate(' in norm(n.iter)]
     ok = any('.args.args' in norm(l.iter) and any(f'start=len({p})' in norm(l.iter).replace(' ', '') for p in posv) for l in loops) and \
